@@ -267,7 +267,12 @@ META["C10"] = dict(
          "legacy records, every non-freed record byte-identical, sizes = chunkFileSizes, every bucket reads its current legacy list with "
          "offsets remapped by remapOffset and every entry resolves to the record it named), C10_upgrade_fsck (fsck clean on the upgraded "
          "directory and after every later run). Out of the theorems' scope, handled by the model and the runs: unmappable entries, torn "
-         "tails, a bit size different from the legacy header's; the resume after an interruption (known finding D14) - in progress.",
+         "tails, a bit size different from the legacy header's. Resume: C10_upgrade_resume_partial (interrupted after the primary phase or "
+         "after the index is chunked - old file already removed or still present - reopening ends in the same memory state and the same "
+         "directory file by file), C10_completed_opens_plainly; the full 'interrupted at ANY step' claim is FALSE in the code = known "
+         "finding D14, documented in the model by decide over the executable step list upgradeSteps: C10_D14_marker_window (the only "
+         "step of the well-formed example that fails to resume is remap.marker_created: 3 of 5 keys read absent) and C10_D14_pool_lost "
+         "(with an unmappable entry, eight windows lose the removal pool).",
     note=SEQ_NOTE + " The byte-level upgrade (chunk file contents, in-place offset rewrite) is not modelled; only its pure core and its result.",
 )
 
